@@ -2,6 +2,7 @@ package main
 
 import (
 	"fmt"
+	ivalue "github.com/smarthome-go/homescript/v3/homescript/interpreter/value"
 
 	"github.com/smarthome-go/homescript/v3/homescript/runtime/value"
 	"regexp"
@@ -57,8 +58,8 @@ type progCase struct {
 	Prog *hs.Program
 	P    hs.Printed
 	Tags []string
-	// HostSingletons: values the host provides for singletons (VM only; the interpreter's host
-	// interface differs, such programs carry the tag vm-only)
+	// HostSingletons: values the host provides for singletons (both backends: each host interface gets its own copy)
+
 	HostSingletons map[string]hs.Val
 }
 
@@ -91,13 +92,45 @@ func toRuntime(v hs.Val) value.Value {
 	return *value.NewValueNull()
 }
 
+// toTree converts a reference value into an interpreter value.
+func toTree(v hs.Val) ivalue.Value {
+	switch x := v.(type) {
+	case int64:
+		return *ivalue.NewValueInt(x)
+	case float64:
+		return *ivalue.NewValueFloat(x)
+	case bool:
+		return *ivalue.NewValueBool(x)
+	case string:
+		return *ivalue.NewValueString(x)
+	case *hs.ListV:
+		elems := make([]*ivalue.Value, len(x.Elems))
+		for i, e := range x.Elems {
+			ev := toTree(e)
+			elems[i] = &ev
+		}
+		return *ivalue.NewValueList(elems)
+	case *hs.ObjV:
+		fields := map[string]*ivalue.Value{}
+		for k, f := range x.F {
+			fv := toTree(f)
+			fields[k] = &fv
+		}
+		return *ivalue.NewValueObject(fields)
+	}
+	return *ivalue.NewValueNull()
+}
+
 func (pc progCase) opts() RunOpts {
 	o := defaultOpts()
 	if pc.HostSingletons != nil {
 		o.Singletons = map[string]value.Value{}
+		o.TreeSingles = map[string]ivalue.Value{}
 		for k, v := range pc.HostSingletons {
 			o.Singletons[k] = toRuntime(v)
 			o.Singletons["$"+k] = toRuntime(v)
+			o.TreeSingles[k] = toTree(v)
+			o.TreeSingles["$"+k] = toTree(v)
 		}
 	}
 	return o
